@@ -847,7 +847,7 @@ spif_str_trim(spif_str_t self)
     spif_charptr_t start, end;
 
     ASSERT_RVAL(!SPIF_STR_ISNULL(self), FALSE);
-    if (!self->s) {
+    if (!self->s || !self->len) {
         /* Still empty; nothing to trim. */
         return TRUE;
     }
